@@ -212,6 +212,7 @@ class VEvent(object):
         with CV:
             CLOCK.waits += 1
             if self._flag:
+                LOG.add("wake", timed_out=False, immediate=True)
                 return True
             w = Waiter()
             w.event = self
